@@ -353,7 +353,12 @@ fn oracle_all() {
         let user = "package p; import q.S; import q.D; interface U { void f(in S s, in S[] a, D d, in List<D> l); }";
         let bodies_s = ["package q; interface S { void a(); }", "package q; interface S { void a() = 4294967296; }", "package q; interface S { void a(); oops oops; void b(in int[] x); }", "package q; /** doc */ interface S { const int K = 3; }"];
         let bodies_d = ["package q; parcelable D { int x; }", "package q; parcelable D { int x; junk junk junk; String s; }", "package q; parcelable D { }"];
-        let snap = |fs: &[(u32, String)]| { let mut p = Parser::new(); for (i, s) in fs { p.add_content(*i, s); } let r = p.validate(); format!("{:?}|{:?}", r[&0].ast, r[&0].diagnostics) };
+        let snap = |fs: &[(u32, String)]| {
+            match std::panic::catch_unwind(std::panic::AssertUnwindSafe(|| { let mut p = Parser::new(); for (i, s) in fs { p.add_content(*i, s); } let r = p.validate(); format!("{:?}|{:?}", r[&0].ast, r[&0].diagnostics) })) {
+                Ok(s) => s,
+                Err(_) => { println!("WITNESS property=C01 PANIC while validating the project {:?}", fs.iter().map(|f| &f.1).collect::<Vec<_>>()); "PANIC".to_owned() }
+            }
+        };
         let base = snap(&[(0, user.to_owned()), (1, bodies_s[0].to_owned()), (2, bodies_d[0].to_owned())]);
         for bs in bodies_s.iter() { for bd in bodies_d.iter() {
             n += 1;
